@@ -2,7 +2,7 @@
     (string level: the token scanner; the field scope is Tie/TieScope.v). *)
 From Coq Require Import String List Ascii Bool.
 From GP Require Import Model.MatrixInterp Proofs.MatrixInterpProofs.
-From GP Require Import Model.Gv Model.Pipeline Model.Interp Model.MatrixStep Proofs.MatrixStepProofs.
+From GP Require Import Model.Gv Model.Pipeline Model.Interp Model.MatrixStep Proofs.MatrixStepProofs Proofs.MatrixStepContent.
 From GP Require Model.Matrix.
 Import ListNotations.
 Local Open Scope string_scope.
@@ -70,6 +70,54 @@ Theorem rejected_yields_no_step : forall c p,
   interpolate_matrix_permutation c p = MRejected.
 Proof. exact MatrixStepProofs.rejected_yields_no_step. Qed.
 
+(** STEP LEVEL, CONTENT.  With T the single-pass replacement of the permutation, every in-scope field of the
+    result is the image under T of the field it came from: command, label, plugin sources, every string and
+    every mapping key inside plugin configs, env VALUES (names and order untouched), unknown fields (keys and
+    values; [map_gv] / [map_rem] are the closed forms of the model's walkers, renames included) *)
+Theorem accepted_step_content : forall c p c',
+  interpolate_matrix_permutation c p = MOk c' -> p <> [] ->
+  cs_command c' = T p (cs_command c) /\
+  cs_label c' = T p (cs_label c) /\
+  map pl_source (cs_plugins c') = map (fun pl => T p (pl_source pl)) (cs_plugins c) /\
+  map pl_config (cs_plugins c') = map (fun pl => map_gv (T p) (pl_config pl)) (cs_plugins c) /\
+  Forall2 (fun pl pl' => interp_gv (total (T p)) (pl_config pl) = Some (pl_config pl')) (cs_plugins c) (cs_plugins c') /\
+  cs_env c' = map (fun kv => (fst kv, T p (snd kv))) (cs_env c) /\
+  map fst (cs_env c') = map fst (cs_env c) /\
+  map snd (cs_env c') = map (fun kv => T p (snd kv)) (cs_env c) /\
+  cs_rem c' = map_rem (T p) (cs_rem c) /\
+  interp_rem (total (T p)) (cs_rem c) = Some (cs_rem c') /\
+  cs_key c' = cs_key c /\ cs_matrix c' = cs_matrix c /\ cs_sig c' = cs_sig c /\ cs_cache c' = cs_cache c.
+Proof. exact MatrixStepContent.accepted_step_content. Qed.
+(** no token is left: when the values carry no `{{` and do not end in `{`, and every `{{` of the in-scope
+    strings opens a token, the result contains no `{{` at all.  Both hypotheses are needed because the single
+    pass does not rescan: replacement text can join its surroundings into a new token
+    (MatrixStepContent.accepted_step_token_free_counterexample, ..._counterexample_value) *)
+Theorem accepted_step_token_free : forall c p c',
+  interpolate_matrix_permutation c p = MOk c' -> p <> [] ->
+  open_free_perm p ->
+  (forall s, In s (in_scope_strings c) -> opens_are_tokens s) ->
+  forall s', In s' (in_scope_strings c') ->
+    has_oo s' = false /\ token_free s' /\ ~ has_known_token p s' /\ (forall Q, ~ contains_token Q s').
+Proof. exact MatrixStepContent.accepted_step_token_free. Qed.
+(** the call fails exactly when some in-scope string carries a token of a dimension the permutation lacks *)
+Theorem unknown_token_fails_iff : forall c p,
+  p <> [] -> Matrix.validate (option_map to_vmatrix (cs_matrix c)) p = Matrix.Accept ->
+  (interpolate_matrix_permutation c p = MUnknownToken <->
+   exists s, In s (in_scope_strings c) /\ has_unknown_token p s).
+Proof. exact MatrixStepContent.unknown_token_fails_iff. Qed.
+Theorem result_trichotomy : forall c p,
+  let R := interpolate_matrix_permutation c p in
+  let V := Matrix.validate (option_map to_vmatrix (cs_matrix c)) p in
+  let U := exists s, In s (in_scope_strings c) /\ has_unknown_token p s in
+  (R = MRejected <-> V <> Matrix.Accept) /\
+  (R = MUnknownToken <-> V = Matrix.Accept /\ p <> [] /\ U) /\
+  ((exists c', R = MOk c') <-> V = Matrix.Accept /\ (p = [] \/ ~ U)) /\
+  (R = MRejected \/ R = MUnknownToken \/ exists c', R = MOk c') /\
+  ~ (R = MRejected /\ R = MUnknownToken) /\
+  ~ (R = MRejected /\ exists c', R = MOk c') /\
+  ~ (R = MUnknownToken /\ exists c', R = MOk c').
+Proof. exact MatrixStepContent.result_trichotomy. Qed.
+
 Print Assumptions accepted_step_frame.
 Print Assumptions empty_permutation_identity.
 Print Assumptions rejected_yields_no_step.
@@ -82,3 +130,7 @@ Print Assumptions transform_unknown_fails.
 Print Assumptions transform_result_spec.
 Print Assumptions repl_of_perm_anon.
 Print Assumptions repl_of_perm_dim.
+Print Assumptions accepted_step_content.
+Print Assumptions accepted_step_token_free.
+Print Assumptions unknown_token_fails_iff.
+Print Assumptions result_trichotomy.
